@@ -798,6 +798,17 @@ func (t *T) fail(now bool, msg string) {
 	}
 }
 
+// failIfFailed propagates a non-fatal failure signalled on inner (the T passed to a Custom generator function) to t.
+func (t *T) failIfFailed(inner *T) {
+	inner.mu.RLock()
+	failed := inner.failed
+	inner.mu.RUnlock()
+
+	if failed != "" {
+		t.fail(false, string(failed))
+	}
+}
+
 func (t *T) failOnError() {
 	t.mu.RLock()
 	defer t.mu.RUnlock()
